@@ -37,4 +37,33 @@ def parseMessage (cfg : Cfg) (bs : List UInt8) : Res Msg := do
   else if t = 27 then parseT27 bs
   else err (.text .unimplementedType)
 
+/-- The per-type public entry points `<Type as AisMessageType>::parse(data)`, addressed by the type number the
+    dispatch would have used (`messages::parse` is `messageType` followed by this). -/
+def parseAs (cfg : Cfg) (t : Nat) (bs : List UInt8) : Res Msg :=
+  if 1 ≤ t ∧ t ≤ 3 then parseT01 bs
+  else if t = 4 then parseT04 bs
+  else if t = 5 then parseT05 cfg bs
+  else if t = 7 then parseT07 bs
+  else if t = 6 then parseT06 cfg bs
+  else if t = 8 then parseT08 cfg bs
+  else if t = 9 then parseT09 bs
+  else if t = 10 then parseT10 bs
+  else if t = 11 then parseT11 bs
+  else if t = 12 then parseT12 cfg bs
+  else if t = 13 then parseT13 bs
+  else if t = 14 then parseT14 cfg bs
+  else if t = 15 then parseT15 cfg bs
+  else if t = 16 then parseT16 bs
+  else if t = 17 then parseT17 cfg bs
+  else if t = 18 then parseT18 bs
+  else if t = 19 then parseT19 cfg bs
+  else if t = 20 then parseT20 bs
+  else if t = 21 then parseT21 cfg bs
+  else if t = 24 then parseT24 cfg bs
+  else if t = 27 then parseT27 bs
+  else err (.text .unimplementedType)
+
+theorem parseMessage_eq_parseAs (cfg : Cfg) (bs : List UInt8) :
+    parseMessage cfg bs = (messageType bs >>= fun t => parseAs cfg t bs) := rfl
+
 end AisVerif
